@@ -304,6 +304,41 @@ def _odd(mido, acc):
                 acc.violation('from_hex/text/accepted-invalid',
                               f'from_hex({text!r}) returned {m!r}',
                               {'kind': 'hex', 'text': text})
+    # from_hex with the sep option: any separator string (regex
+    # metacharacters included) on well-formed and malformed text - a message
+    # whose bytes reproduce the input, or ValueError, nothing else
+    from .c01 import SEPS
+    for sep in SEPS:
+        for tmpl in TEMPLATES:
+            ok = ref.decode(list(tmpl)) is not ref.INVALID
+            texts = [(sep.join('%02X' % b for b in tmpl), ok),
+                     (sep.join('%02X' % b for b in tmpl[:-1]) if len(tmpl) > 1
+                      else 'F', False),
+                     (sep.join('%02X' % b for b in tmpl) + sep + 'GG', False)]
+            for text, valid in texts:
+                acc.evals += 1
+                acc.nontrivial += 1
+                case = {'kind': 'hexsep', 'text': text, 'sep': sep}
+                try:
+                    m = mido.Message.from_hex(text, sep=sep)
+                except ValueError:
+                    if valid:
+                        acc.violation('from_hex-sep/rejected-valid',
+                                      f'from_hex({text!r}, sep={sep!r}) raised '
+                                      f'ValueError', case)
+                except Exception as e:
+                    acc.violation(f'from_hex-sep/{type(e).__name__}',
+                                  f'from_hex({text!r}, sep={sep!r}) raised '
+                                  f'{e!r}', case)
+                else:
+                    if not valid and m.bytes() != list(tmpl):
+                        acc.violation('from_hex-sep/accepted-invalid',
+                                      f'from_hex({text!r}, sep={sep!r}) = {m!r}',
+                                      case)
+                    elif valid and m.bytes() != list(tmpl):
+                        acc.violation('from_hex-sep/wrong',
+                                      f'from_hex({text!r}, sep={sep!r}) = {m!r}',
+                                      case)
     acc.sample({'odd_items': [repr(x) for x in OUT_OF_BYTE + NON_INT],
                 'templates': [list(t) for t in TEMPLATES]}, cap=1)
 
